@@ -429,7 +429,7 @@ func c17HistoryCheck(order []int, fwd bool) (out [][2]string) {
 		return ref.Iface{Scalars: ref.Table{"name": name, "advertise": true},
 			Prefix: []ref.Table{{}, {"prefix": "2001:db8:d::/64", "deprecated": true, "valid_lifetime": "2h", "preferred_lifetime": "1h"}},
 			Route:  []ref.Table{{}, {"prefix": "2001:db8:ffff::/48"}}, RDNSS: []ref.Table{{}, {"servers": []string{"2001:db8::53"}, "lifetime": "1h"}},
-			DNSSL:  []ref.Table{{"domain_names": []string{"lan.example.com"}}}}
+			DNSSL: []ref.Table{{"domain_names": []string{"lan.example.com"}}}}
 	}
 	doc := ref.Doc{Ifaces: []ref.Iface{mk("eth0"), mk("eth2"), {Scalars: ref.Table{"name": "eth1", "monitor": true}}}}
 	cfg, err := config.Parse(strings.NewReader(doc.TOML()), c17Epoch)
